@@ -13,7 +13,8 @@ RULE = ("breadth-first exploration of command histories over a nested project (/
         "archive variant {all, --latest, each task T, T --latest} is taken, then restored (a) after clean and (b) after clean + a further "
         "run (project holding other versions). states = distinct canonical project states (index rows + Merkle digest of cond-out); "
         "transitions = commands executed; oracle = reference selection, rows/commit/dirty equality, tar member list, byte-identical trees "
-        "(nested dirs, empty files, binary bytes, symlinks), source project unchanged by archive")
+        "(nested dirs, empty files, binary bytes, symlinks), source project unchanged by archive"
+        ' Plus all 63 non-empty index states over 3 tasks x 2 timestamps (timestamps shared between tasks, as after restores from other checkouts), and archiving from a state that holds the temporary index left by a killed archive.')
 ASSUMPTIONS = [
     "the external tar is trusted (real tar is used)",
     "version ids come from the virtual clock (+10 s per run)",
